@@ -31,12 +31,12 @@ theorem sizeExpFixed_facts (feats : Features) (fmt : Format) (o : WOpts) (hno : 
 
 /-- **the repair never shrinks the bound** (any radix, any options) -/
 theorem bufferSizeConst_le_fixed (feats : Features) (f : Fmt) (fmt : Format) (o : WOpts) (hno : NumOpts o) :
-    bufferSizeConst feats f fmt o ≤ bufferSizeConstFixed feats f fmt o := by
+    bufferSizeConstOld feats f fmt o ≤ bufferSizeConst feats f fmt o := by
   have h1 := (sizeExpFixed_facts feats fmt o hno).1
   have h2 : sizeDigits fmt.mantissaRadix o ≤ sizeDigitsFixed fmt.mantissaRadix o := by
     unfold sizeDigitsFixed sizeDigits
     cases o.minDigits <;> cases o.maxDigits <;> simp <;> omega
-  unfold bufferSizeConst bufferSizeConstFixed
+  unfold bufferSizeConstOld bufferSizeConst
   dsimp only
   omega
 
@@ -44,15 +44,15 @@ theorem bufferSizeConst_le_fixed (feats : Features) (f : Fmt) (fmt : Format) (o 
 theorem need_le_fixed (feats : Features) (f : Fmt) (fmt : Format) (o : WOpts) (ds : List Nat) (sci : Int) (S : Nat)
     (h10 : fmt.mantissaRadix = 10) (her : (effFmt feats fmt).exponentRadix = 10) (hno : NumOpts o)
     (hds1 : 1 ≤ ds.length) (hdsn : ds.length ≤ mantNeed f) (hrange : -324 ≤ sci ∧ sci ≤ 308) (hS : S ≤ 1) :
-    S + needDec fmt feats f ds sci o ≤ bufferSizeConstFixed feats f fmt o := by
+    S + needDec fmt feats f ds sci o ≤ bufferSizeConst feats f fmt o := by
   obtain ⟨hE5, hEbr, hEno⟩ := sizeExp_facts feats fmt o hno
   obtain ⟨hle, h12⟩ := sizeExpFixed_facts feats fmt o hno
   obtain ⟨hD28, hDmn, _⟩ := sizeDigitsFixed_facts o
   obtain ⟨_, hc2, _, _⟩ := truncateAndRound_length ds o hds1 hno.mx
   have hnd := mantNeed_le f
-  have hB : 2 + sizeExpFixed feats fmt o + sizeDigitsFixed 10 o ≤ bufferSizeConstFixed feats f fmt o ∧
-      64 ≤ bufferSizeConstFixed feats f fmt o := by
-    unfold bufferSizeConstFixed
+  have hB : 2 + sizeExpFixed feats fmt o + sizeDigitsFixed 10 o ≤ bufferSizeConst feats f fmt o ∧
+      64 ≤ bufferSizeConst feats f fmt o := by
+    unfold bufferSizeConst
     simp only [h10, if_true, formattedSizeDecimal_float]
     omega
   refine need_le_general feats f fmt o ds sci S (sizeDigitsFixed 10 o) (sizeExpFixed feats fmt o) _ her hno.mx hds1 hdsn
